@@ -69,6 +69,12 @@ var sources = []string{
 	"T | summarize count() by ia | where iif(true, now() > 0, isnotnull(ia))",
 	"T; U",
 	"let lo = -1; T | where a > lo",
+	"let x = `q`; T",
+	"\n\n   let yy = 1; let x = `q`; T | count",
+	"let y = a.b; T",
+	"let z = 1;\nlet y = 2 + a.b.c; T | take z",
+	"T | join kind=fullouter (U) on k",
+	"T | where a > 1\n| join kind=outer (U) on k",
 	"let w0 = -1; T | where a > w0 and b == w1",
 	"let fresh = -(3); let w2 = +fresh; T | take 3 | where w2 == fresh",
 	"T | where fresh == 1 and w0 == w2",
@@ -232,6 +238,37 @@ func (c callID) String() string {
 }
 
 func doCall(c callID, opts []*pql.CompileOptions) string {
+	out, _ := doCallErr(c, opts)
+	return out
+}
+
+// sharedTrees holds one parsed tree per source, parsed once per process and
+// then only read: traversals and Span() calls on it from many goroutines.
+var sharedTrees struct {
+	mu sync.Mutex
+	m  map[int][]parser.Statement
+}
+
+func sharedTree(s int) []parser.Statement {
+	sharedTrees.mu.Lock()
+	defer sharedTrees.mu.Unlock()
+	if sharedTrees.m == nil {
+		sharedTrees.m = map[int][]parser.Statement{}
+	}
+	if t, ok := sharedTrees.m[s]; ok {
+		return t
+	}
+	t, err := parser.Parse(sources[s])
+	if err != nil {
+		t = nil // only successfully parsed statements are walked
+	}
+	sharedTrees.m[s] = t
+	return t
+}
+
+// doCallErr performs one call and also returns the error value it produced, so
+// that the caller can look at it again later.
+func doCallErr(c callID, opts []*pql.CompileOptions) (string, error) {
 	src := sources[c.Src]
 	switch c.Entry {
 	case "compile":
@@ -239,12 +276,29 @@ func doCall(c callID, opts []*pql.CompileOptions) string {
 		if c.Opt == 0 && c.Src%2 == 0 {
 			sql, err = pql.Compile(src)
 		}
-		return fmt.Sprintf("sql=%q err=%v", sql, err)
+		return fmt.Sprintf("sql=%q err=%v", sql, err), err
 	case "parse":
 		st, err := parser.Parse(src)
-		return fmt.Sprintf("tree=%s err=%v", pqlref.Dump(st, 0, true), err)
+		return fmt.Sprintf("tree=%s err=%v", pqlref.Dump(st, 0, true), err), err
+	case "walk":
+		// a read-only use of a tree other goroutines read too: Walk and Span()
+		var sb strings.Builder
+		for _, st := range sharedTree(c.Src) {
+			parser.Walk(st, func(n parser.Node) bool {
+				if pqlref.IsNilNode(n) {
+					sb.WriteString("nil;")
+					return false
+				}
+				fmt.Fprintf(&sb, "%T%v;", n, n.Span())
+				return true
+			})
+			for _, rn := range pqlref.Reach(st) {
+				fmt.Fprintf(&sb, "%v", rn.Node.Span())
+			}
+		}
+		return sb.String(), nil
 	default:
-		return fmt.Sprint(parser.Scan(src))
+		return fmt.Sprint(parser.Scan(src)), nil
 	}
 }
 
@@ -266,7 +320,7 @@ func allCalls() []callID {
 		for o := range optNames {
 			out = append(out, callID{"compile", s, o})
 		}
-		out = append(out, callID{"parse", s, 0}, callID{"scan", s, 0})
+		out = append(out, callID{"parse", s, 0}, callID{"scan", s, 0}, callID{"walk", s, 0})
 	}
 	return out
 }
@@ -338,16 +392,30 @@ func child(args []string) {
 			outs[g] = map[string]string{}
 			<-barrier
 			started.Add(1)
+			var prevErr error
+			var prevText string
+			var prevCall callID
 			call := func(n int, c callID) {
 				defer func() {
 					if p := recover(); p != nil {
 						panics[g] = append(panics[g], fmt.Sprintf("%s: %v", c, p))
 					}
 				}()
-				out := doCall(c, opts)
+				out, errObj := doCallErr(c, opts)
 				h := hashOf(out)
 				outs[g][h] = out
 				recs[g] = append(recs[g], record{g, n, c, h})
+				// the error value of the previous call is read once more: what a call
+				// returned must not change when later calls are made
+				if prevErr != nil {
+					if now := prevErr.Error(); now != prevText {
+						panics[g] = append(panics[g], fmt.Sprintf("the error returned by %s read %q when it was returned and reads %q after %s", prevCall, prevText, now, c))
+					}
+				}
+				prevErr, prevCall = errObj, c
+				if errObj != nil {
+					prevText = errObj.Error()
+				}
 			}
 			if ladder {
 				for k := 0; k < 52; k++ {
